@@ -1,12 +1,20 @@
 ENGINES = [
     {'name': 'X', 'path': 'lib/xworker.py', 'kind_free_text': 'CrossHair 0.0.110 symbolic execution of the real Python functions (z3 decides every branch), one OS process per condition, vacuity twin per condition, plain-CPython replay of every counterexample',
-     'serves_properties': ['C02', 'C06', 'C08', 'C09', 'C10', 'C11', 'C13', 'C15', 'C16', 'C17', 'C18', 'C19']},
+     'serves_properties': ['C02', 'C06', 'C08', 'C09', 'C10', 'C11', 'C13', 'C15', 'C16', 'C17', 'C18', 'C19', 'C20']},
     {'name': 'Z', 'path': 'lib/zworker.py', 'kind_free_text': 'z3 sequence-theory queries over SHA-1 pre-image terms recorded by executing the real digest code on symbolic strings (lib/zsym.py); sat models replayed on the real functions with the real hashlib',
      'serves_properties': ['C02', 'C03', 'C07']},
 ]
 NOTES = ('Technique family: solver-based checking of the real code. Every result is bounded; bounds, stubs and '
          'assumptions are in evidence/<id>.json and DESIGN.md. Exit 2 of ./check = harness error (never a verdict).')
 CLAIMS = {
+    'C20': dict(
+        engine='X',
+        technique='CrossHair+z3 enumeration of recipe graphs (dependency kinds symbolic) through the real Jenkins job name calculation, job population and build order code',
+        text='Job graph part: for root + three variants of one recipe + a second recipe + a tool package existing inside and outside a sandbox, with every dependency kind (none/argument/tool) between the packages in index '
+             'order, root dependency subsets/orders, sandbox use and an isolate pattern: the job graph is acyclic (genJenkinsBuildOrder succeeds and is topological), every reachable package step is built by exactly one job, '
+             'every step is in a job, and each job lists the jobs of all its arguments, tools and sandbox as upstream. Not covered: the embedded job specification (PartialIR round trip), job XML, workspace assignment on the node.',
+        design_ref='DESIGN.md section 4, C20',
+        note='Trusted: stub packages. Id fidelity between project and build node rests on the C03 equivalence CoreStep.getDigest == StepIR.getDigestCoro. Outside: exec.py, XML, more than 3 variants.'),
     'C08': dict(
         engine='X',
         technique='CrossHair+z3 enumeration of hostile member lists through the real TarHelper/_tarExtractFilter and the stdlib tarfile extraction code (private module copy) on a stub file system; counterexamples replayed in a real temporary directory',
